@@ -25,9 +25,11 @@ VARIABLES l,          \* next trace line
           txn,        \* spec history: [req, snap, dev] of the last applied transaction
           dry,        \* spec history: last dry-run prediction
           flt,        \* spec history: the last failed TransactionSet [req, I, d, ever] (C07 retry)
+          dis,        \* disabled validator classes of the running behaviour (C04)
+          lastSet,    \* spec history: verdict and resulting configuration of the last judged TransactionSet (C04)
           bad,        \* failed clauses: <<property, clause, line>>
           nt          \* non-trivial exercise counters per property
-tvars == <<l, intended, mirror, device, ever, open, txn, dry, flt, bad, nt>>
+tvars == <<l, intended, mirror, device, ever, open, txn, dry, flt, dis, lastSet, bad, nt>>
 
 SeqRange(s) == {s[i] : i \in 1..Len(s)}
 Pairs(s) == {<<q[1], q[2]>> : q \in SeqRange(s)}
@@ -40,14 +42,15 @@ ModOf(m) == [o |-> m.o, p |-> m.p, del |-> SeqRange(m.del), upd |-> Pairs(m.upd)
 NoTxn == [valid |-> FALSE]
 NoDry == [valid |-> FALSE]
 NoFlt == [valid |-> FALSE]
-Props == {"C01", "C02", "C03", "C05", "C06", "C07", "C08", "C09", "M"}
+NoSet == [valid |-> FALSE]
+Props == {"C01", "C02", "C03", "C04", "C05", "C06", "C07", "C08", "C09", "M"}
 
 NoOpen == [id |-> "-", armed |-> FALSE, short |-> FALSE]
 OpenProj == [id |-> open.id, armed |-> open.armed]
 \* the open transaction after an event: what is observed, plus the timeout class of the Set that opened it
 NextOpen(o, short) == [id |-> o.open.id, armed |-> o.open.armed, short |-> (o.open.id # "-" /\ short)]
 Init == /\ l = 1 /\ intended = {} /\ mirror = <<>> /\ device = <<>> /\ ever = {}
-        /\ open = NoOpen /\ txn = NoTxn /\ dry = NoDry /\ flt = NoFlt
+        /\ open = NoOpen /\ txn = NoTxn /\ dry = NoDry /\ flt = NoFlt /\ dis = {} /\ lastSet = NoSet
         /\ bad = {} /\ nt = [p \in Props |-> 0]
 
 \* names of the clauses that do not hold; cs is a set of <<property, clause, BOOLEAN>>
@@ -86,7 +89,8 @@ SetClauses(e, o) ==
      {<<"C07", "Unlocked", e.ret = "error" => o.open.id = "-">>,
       <<"C07", "NoPartialAnswer", e.ret \in {"ok", "error", "invalid"}>>}
   ELSE IF applied THEN
-     {<<"C01", "Converged", AdmConverged(o.d, I2)>>,
+     {<<"C04", "AppliedIsValid", ValidCfg(ResultOf(I2, device, ever), dis)>>,
+      <<"C01", "Converged", AdmConverged(o.d, I2)>>,
       <<"C01", "NoStale", AdmNoStale(device, o.d, E2, I2, orph)>>,
       <<"C01", "Untouched", AdmUntouched(device, o.d, E2)>>,
       <<"C08", "OneCase", AdmOneCase(o.d, I2)>>,
@@ -107,6 +111,7 @@ SetClauses(e, o) ==
       <<"M", "MirrorTracksSent", o.m = ApplyChange(mirror, sent)>>}
   ELSE IF e.ret \in {"invalid"} \/ (e.ret = "ok" /\ e.dry) THEN
      {<<"C03", "NoEffect", NoEffect(e, o)>>,
+      <<"C04", "Verdict", (e.ret = "ok") = ValidCfg(ResultOf(I2, device, ever), dis)>>,
       <<"C06", "NotWedgedAfterNoApply", o.open.id = "-">>}
   ELSE IF e.ret = "error" THEN
      {<<"C07", "RetrySucceeds", ~(flt.valid /\ flt.req = R /\ e.failat = 0 /\ ~e.devfail)>>,
@@ -127,7 +132,11 @@ SetNT(e) ==
       verbatim == \A i \in R : i.kind = "set" /\ NewEntries(i) = OfOwner(intended, i.o)
       caseChange == \E c \in {ChoiceOf(x) : x \in LeavesOf(intended) \cup LeavesOf(I2)} \ {NoChoice} :
                        Contrib(intended, c) # {} /\ Contrib(I2, c) # {} /\ WinCase(intended, c) # WinCase(I2, c)
+      reqLeaves == UNION {{q[1] : q \in i.upd} : i \in R}
+      verdictBeyondRequest == open.id = "-" /\ e.ret \in {"ok", "invalid"} /\
+            ValidCfg(ResultOf(I2, device, ever), dis) # ValidCfg(Restrict(ResultOf(I2, device, ever), reqLeaves), dis)
   IN (IF applied /\ rulerChanged THEN {"C01"} ELSE {})
+     \cup (IF verdictBeyondRequest \/ (e.ret = "invalid" /\ open.id = "-") THEN {"C04"} ELSE {})
      \cup (IF applied /\ shadowedTouched THEN {"C02"} ELSE {})
      \cup (IF (e.ret = "invalid" \/ e.dry) /\ intended # {} THEN {"C03"} ELSE {})
      \cup (IF open.id # "-" \/ e.ret # "ok" \/ e.dry THEN {"C06"} ELSE {})
@@ -147,6 +156,10 @@ TxSet(e) ==
                ELSE ever \cup LeavesOf(o.I)
      /\ txn' = IF applied THEN [valid |-> TRUE, id |-> e.id, req |-> R, snap |-> SnapOf(intended, R), dev |-> device, I |-> intended]
                ELSE txn
+     /\ lastSet' = IF open.id = "-" /\ e.failat = 0 /\ ~e.devfail /\ e.ret \in {"ok", "invalid"}
+                   THEN [valid |-> TRUE, ret |-> e.ret, cfg |-> ResultOf(NewStore(intended, R), device, ever)]
+                   ELSE NoSet
+     /\ UNCHANGED dis
      /\ flt' = IF e.failat > 0 \/ e.devfail
                THEN (IF flt.valid /\ flt.req = R THEN flt
                      ELSE [valid |-> TRUE, req |-> R, I |-> intended, d |-> device, ever |-> ever])
@@ -179,7 +192,7 @@ Confirm(e) ==
   /\ nt' = Bump(IF ~Matches(e) /\ open.id # "-" THEN {"C06"} ELSE {})
   /\ intended' = o.I /\ mirror' = (IF e.envsync THEN o.d ELSE o.m) /\ device' = o.d /\ open' = NextOpen(o, open.short)
   /\ txn' = IF o.open.id = "-" THEN NoTxn ELSE txn
-  /\ UNCHANGED <<ever, dry, flt>>
+  /\ UNCHANGED <<ever, dry, flt, dis, lastSet>>
 
 Cancel(e) ==
   LET o == Obs(e) IN
@@ -193,7 +206,7 @@ Cancel(e) ==
   /\ intended' = o.I /\ mirror' = (IF e.envsync THEN o.d ELSE o.m) /\ device' = o.d /\ open' = NextOpen(o, open.short)
   /\ txn' = IF o.open.id = "-" THEN NoTxn ELSE txn
   /\ ever' = ever \cup LeavesOf(o.I)
-  /\ UNCHANGED <<dry, flt>>
+  /\ UNCHANGED <<dry, flt, dis, lastSet>>
 
 \* time passes: more than the short transaction timeout, less than the long one
 Wait(e) ==
@@ -208,21 +221,33 @@ Wait(e) ==
   /\ intended' = o.I /\ mirror' = (IF e.envsync THEN o.d ELSE o.m) /\ device' = o.d /\ open' = NextOpen(o, open.short)
   /\ txn' = IF o.open.id = "-" THEN NoTxn ELSE txn
   /\ ever' = ever \cup LeavesOf(o.I)
-  /\ UNCHANGED <<dry, flt>>
+  /\ UNCHANGED <<dry, flt, dis, lastSet>>
 
 Restart(e) ==
   LET o == Obs(e) IN
   /\ bad' = bad \cup Failed({<<"C07", "RestartKeepsStores", o.I = intended /\ o.d = device /\ o.m = mirror>>}, l)
   /\ intended' = o.I /\ mirror' = o.m /\ device' = o.d /\ open' = NextOpen(o, FALSE)
   /\ txn' = NoTxn /\ dry' = NoDry
-  /\ UNCHANGED <<ever, nt, flt>>
+  /\ UNCHANGED <<ever, nt, flt, dis, lastSet>>
 
 Reset(e) ==
   LET o == Obs(e) IN
   /\ intended' = o.I /\ mirror' = o.m /\ device' = o.d /\ open' = NextOpen(o, FALSE)
   /\ ever' = {} /\ txn' = NoTxn /\ dry' = NoDry /\ flt' = NoFlt
+  /\ dis' = SeqRange(e.disabled) /\ lastSet' = NoSet
   /\ bad' = bad \cup Failed({<<"M", "InitClean", o.I = {} /\ o.m = o.d /\ o.open.id = "-">>}, l)
   /\ UNCHANGED nt
+
+\* C04 metamorphic probe: the resulting configuration of the last judged TransactionSet, submitted as ONE
+\* intent to an EMPTY datastore (dry run), gets the same verdict
+Probe(e) ==
+  LET cfg == ObsFun(e.cfg)
+      judged == lastSet.valid /\ lastSet.cfg = cfg
+  IN /\ bad' = bad \cup Failed(
+            (IF judged THEN {<<"C04", "Partition", e.ret = lastSet.ret>>} ELSE {})
+            \cup {<<"C04", "ProbeVerdict", e.ret \in {"ok", "invalid"} /\ ((e.ret = "ok") = ValidCfg(cfg, dis))>>}, l)
+     /\ nt' = Bump(IF judged THEN {"C04"} ELSE {})
+     /\ UNCHANGED <<intended, mirror, device, ever, open, txn, dry, flt, dis, lastSet>>
 
 Step ==
   /\ l <= Len(Trace)
@@ -233,6 +258,7 @@ Step ==
          [] e.ev = "cancel" -> Cancel(e)
          [] e.ev = "wait" -> Wait(e)
          [] e.ev = "restart" -> Restart(e)
+         [] e.ev = "probe" -> Probe(e)
   /\ l' = l + 1
 
 Finish ==
@@ -240,7 +266,7 @@ Finish ==
   /\ JsonSerialize(OutFile, [consumed |-> l - 1, total |-> Len(Trace),
                              bad |-> SetToSeq(bad), nt |-> nt])
   /\ l' = l + 1
-  /\ UNCHANGED <<intended, mirror, device, ever, open, txn, dry, flt, bad, nt>>
+  /\ UNCHANGED <<intended, mirror, device, ever, open, txn, dry, flt, dis, lastSet, bad, nt>>
 
 Next == Step \/ Finish
 Spec == Init /\ [][Next]_tvars
